@@ -1077,7 +1077,20 @@ int __wrap_poll(struct pollfd* pfds, nfds_t n, int timeout) {
     if (!of || !of->is_open) {
       pfds[i].revents = POLLNVAL;
     } else {
-      pfds[i].revents = of->ready & (pfds[i].events | POLLHUP | POLLERR);
+      short ready = of->ready;
+      if (!of->explicit_ready) {
+        // what the state of the open file implies: a regular file is always ready; a pipe-like stream is readable
+        // while it holds data and hung up once its writer is gone (both at once while data is left)
+        const Inode& ino = *of->ino;
+        if (ino.kind == Kind::REG) ready = POLLIN | POLLOUT;
+        else if (ino.kind == Kind::STREAM) {
+          ready = 0;
+          if (of->pos < ino.data.size()) ready |= POLLIN;
+          if (!ino.writer_open) ready |= POLLHUP;
+          if ((of->flags & O_ACCMODE) != O_RDONLY) ready |= POLLOUT;
+        }
+      }
+      pfds[i].revents = ready & (pfds[i].events | POLLHUP | POLLERR);
     }
     if (pfds[i].revents) ready++;
   }
